@@ -226,6 +226,37 @@ func val(t reflect.Type, p int) reflect.Value {
 	return v
 }
 
+// deepVal fills every pointer, every slice and map with one entry and scalars with non-zero values, to any depth.
+func deepVal(t reflect.Type) reflect.Value {
+	v := reflect.New(t).Elem()
+	switch t.Kind() {
+	case reflect.Struct:
+		for i := 0; i < t.NumField(); i++ {
+			if t.Field(i).PkgPath == "" {
+				v.Field(i).Set(deepVal(t.Field(i).Type))
+			}
+		}
+	case reflect.Ptr:
+		n := reflect.New(t.Elem())
+		n.Elem().Set(deepVal(t.Elem()))
+		v.Set(n)
+	case reflect.Slice:
+		v.Set(reflect.Append(v, deepVal(t.Elem())))
+	case reflect.Map:
+		v.Set(reflect.MakeMap(t))
+		k := reflect.New(t.Key()).Elem()
+		if t.Key().Kind() == reflect.String {
+			k.SetString("k")
+		} else {
+			k.SetInt(7)
+		}
+		v.SetMapIndex(k, deepVal(t.Elem()))
+	default:
+		return val(t, 1)
+	}
+	return v
+}
+
 // ---- oracle ----
 
 func canonNum(s string) string {
@@ -598,6 +629,63 @@ func run(c *runner.Ctx) {
 		}
 	}
 
+	// deep nesting (through values, pointers, slices and maps) and wide structs
+	c.Space("deep-and-wide")
+	for _, via := range []string{"value", "pointer", "slice", "map", "mixed"} {
+		for _, depth := range []int{8, 16, 31, 32, 33, 34, 48, 64, 100} {
+			if !c.Take() {
+				continue
+			}
+			cur := mkStruct([]fld{{tInt, true}, {tString, true}})
+			for k := 0; k < depth; k++ {
+				var inner ty
+				switch via {
+				case "value":
+					inner = cur
+				case "pointer":
+					inner = ptrTo(cur)
+				case "slice":
+					inner = sliceOf(cur)
+				case "map":
+					inner = mapOf(tString.t, cur)
+				default:
+					inner = []ty{cur, ptrTo(cur), sliceOf(cur), mapOf(tInt.t, cur)}[k%4]
+				}
+				cur = mkStruct([]fld{{tBool, k%3 == 0}, {inner, true}, {tInt, true}})
+			}
+			// profile 1: every pointer non-nil, every collection one entry - the value is as deep as the type
+			v := deepVal(cur.t)
+			checkFixed(c, ty{cur.t, fmt.Sprintf("nesting depth %d through %s", depth, via), true}, v.Interface())
+			checkFixed(c, ty{cur.t, fmt.Sprintf("*nesting depth %d through %s", depth, via), true}, v.Addr().Interface())
+			c.Done(true, 2)
+		}
+	}
+	for _, n := range []int{20, 64, 65, 200} {
+		if !c.Take() {
+			continue
+		}
+		var fs []fld
+		for i := 0; i < n; i++ {
+			fs = append(fs, fld{[]ty{tInt, tString, tBool, tF64, sliceOf(tString), mapOf(tString.t, tInt), structs[4], ptrTo(structs[1])}[i%8], i%7 != 3})
+		}
+		// field names beyond 26: mkStruct names by letter; build directly
+		var sf []reflect.StructField
+		for i, f := range fs {
+			name := fmt.Sprintf("F%03d", i)
+			if !f.exported {
+				sf = append(sf, reflect.StructField{Name: "f" + name, Type: f.t.t, PkgPath: pkgPath})
+			} else {
+				sf = append(sf, reflect.StructField{Name: name, Type: f.t.t})
+			}
+		}
+		wt := reflect.StructOf(sf)
+		for p := 0; p < 4; p++ {
+			v := val(wt, p)
+			checkFixed(c, ty{wt, fmt.Sprintf("struct with %d fields, profile %d", n, p), true}, v.Interface())
+		}
+		c.Done(true, 4)
+	}
+
 	c.Space("no-fields")
 	if c.Take() {
 		evalType(mkStruct(nil), []int{0})
@@ -808,7 +896,7 @@ func main() {
 			"level k+1 = {[]e, map[string]e, map[int64]e, struct{A e}, struct{a e; B e}, *struct{A e}, struct{A e; B e}} over level k; top-level structs with 0..3 fields, every field exported or unexported in every position, " +
 			"all 1- and 2-field structs over level 1, 3-field structs (thorough: full level 1; quick: 12-type subset), level 2 alone and next to level-1 / level-2 neighbours in both orders, level 3 (and a thinned level 4 on thorough); " +
 			"values: 4 profiles per type (all zero / nil; one entry; two-three entries with nested zero values and nil pointers; empty non-nil collections) plus alternative floats, extremes of every integer width; each as T and *T; " +
-			"plus fixed named types and long collections (31..130 elements of 14 element types in a slice, an int-keyed and a string-keyed map, followed by further struct fields); oracle: json.Valid and the independent RFC 8259 recogniser accept the output; decoded with UseNumber it equals the standard encoder's document after bool -> \"true\"/\"false\", null slice -> [], null map -> {}, numbers compared by value; " +
+			"plus fixed named types, nesting to depth 100 through values / pointers / slices / maps, structs with up to 200 fields, and long collections (31..130 elements of 14 element types in a slice, an int-keyed and a string-keyed map, followed by further struct fields); oracle: json.Valid and the independent RFC 8259 recogniser accept the output; decoded with UseNumber it equals the standard encoder's document after bool -> \"true\"/\"false\", null slice -> [], null map -> {}, numbers compared by value; " +
 			"additionally (modes conc / race, under the controlled scheduler of C10/C11): 2-3 threads dump values of struct types that are new in every execution, all schedules within preemption bound 2 (thorough 3), each result = the result of the call made alone, race detector silent; " +
 			"transitions = dumper calls / scheduling steps; non-trivial = types containing an empty struct, a map, a bool or a leading unexported field",
 		Assumptions: []string{"excluded by the statement: interface fields, pointers to scalars, time.Time, func/chan, strings needing escapes; additionally not generated: arrays, []uint8 (base64 in the standard encoder), embedded fields (flattened by the standard encoder), pointers to pointers, float32 values that are not dyadic, json struct tags",
